@@ -15,7 +15,7 @@
 EXTENDS Ring, Json, IOUtils, TLC, TLCExt
 
 VARIABLES tid, k, sring, slive, flags
-tvars == <<tid, k, sring, slive, flags>>
+tvars == <<tid, k, sring, slive, flags, vars>>
 
 Traces == JsonDeserialize(IOEnv.TRACE_FILE)
 T == Traces[tid]
@@ -43,9 +43,10 @@ StepFlags(r, nodes, st) ==
             IN st.routes[i][2] # g \/ st.routes[i][3] # DestsP(g, T.rf, T.diverse, T.server)
         THEN {"route"} ELSE {})
 
-Init == /\ tid \in 1..Len(Traces) /\ k = 1 /\ sring = <<>> /\ slive = {} /\ flags = {}
+TInit == /\ tid \in 1..Len(Traces) /\ k = 1 /\ sring = <<>> /\ slive = {} /\ flags = {}
+         /\ h = <<>> /\ ring = <<>> /\ live = {} /\ nops = 0 /\ hist = <<>>   \* (Ring's own variables: unused here)
 
-Step ==
+TStep ==
   /\ k <= Len(T.ops)
   /\ LET op == T.ops[k]
          r2 == IF op[1] = "add" THEN AddNodeF(sring, op[2], Tbl) ELSE RemoveNodeF(sring, op[2])
@@ -54,7 +55,7 @@ Step ==
          prev == IF k = 1 THEN <<>> ELSE T.steps[k - 1].routes
      IN /\ sring' = r2 /\ slive' = l2
         /\ flags' = flags \cup StepFlags(r2, l2, st)
-  /\ k' = k + 1 /\ UNCHANGED tid
+  /\ k' = k + 1 /\ UNCHANGED <<tid, vars>>
 
 \* at the end: routing must equal that of a freshly started ring with the same live nodes
 FinalFlags ==
@@ -68,6 +69,6 @@ FinalFlags ==
           \cup (IF T.fresh.ring # <<>> /\ [i \in 1..Len(T.fresh.ring) |-> <<T.fresh.ring[i][1], T.fresh.ring[i][2]>>] # fr
                   THEN {"freshring"} ELSE {})
 
-Spec == Init /\ [][Step]_tvars
+TSpec == TInit /\ [][TStep]_tvars
 Report == IF k = Len(T.ops) + 1 THEN PrintT(<<"DONE", tid, flags \cup FinalFlags>>) ELSE TRUE
 =============================================================================
